@@ -47,7 +47,6 @@ TRUSTED = [
 ]
 ASSUMPTIONS = [
     "HUGRs are valid and module-rooted (built by well-formed builder programs); value wires never cross a FuncDefn",
-    "function-valued constants are outside the generated fragment",
 ]
 
 VERIF = Path(__file__).resolve().parent.parent.parent
@@ -288,6 +287,18 @@ def _own_module(seed: int, size: int, feats: list[str]):
                     n = b.add_op(Not, w)
                     note(n)
                     push(n, 0, tys.Bool)
+            elif k == "load" and "fnval" in F and rng.random() < 0.3:
+                from hugr.build.dfg import Dfg
+
+                ts = [rng.choice([tys.Bool, I5]) for _ in range(rng.randint(0, 2))]
+                d = Dfg(*ts)
+                ws = list(d.inputs())
+                if ts and ts[0] == tys.Bool and rng.random() < 0.6:
+                    ws[0] = d.add_op(Not, ws[0])[0]
+                rng.shuffle(ws)
+                d.set_outputs(*ws[: rng.randint(0, len(ws))])
+                n = b.load(val.Function(d.hugr))
+                note(n)
             elif k == "load":
                 t = rng.choice([tys.Bool, tys.Unit, I5, TUP])
                 n = b.load(rand_val(t))
@@ -477,7 +488,7 @@ def _own_module(seed: int, size: int, feats: list[str]):
     return mod.hugr
 
 
-ALL_FEATS = ["decl", "poly", "const", "alias", "ext", "meta", "order", "cfg", "loadfn"]
+ALL_FEATS = ["decl", "poly", "const", "alias", "ext", "meta", "order", "cfg", "loadfn", "fnval"]
 
 
 def _script(name: str):
@@ -592,6 +603,15 @@ def _script(name: str):
             brk = tl.add(ops.Break(tys.Either([], []))())
             tl.set_loop_outputs(brk, tl.inputs()[0])
         g.set_outputs(tl[0])
+    elif name == "func_const":  # a function-valued constant: its DFG body becomes a `Func` region
+        from hugr.build.dfg import Dfg
+
+        d = Dfg(B, B)
+        x, y = d.inputs()
+        d.set_outputs(d.add_op(Not, y)[0], x)
+        g = mod.define_function("main", [])
+        f = g.load(val.Function(d.hugr))
+        g.set_outputs(f[0])
     elif name == "empty":
         pass
     else:
@@ -600,7 +620,8 @@ def _script(name: str):
 
 
 SCRIPTS = ["call_once", "call_twice", "unused_output", "load_unused", "const_twice", "order", "order_ext", "cfg",
-           "cfg_single", "poly", "decl", "cond", "meta_nested", "fanout", "tail_loop", "empty"]
+           "cfg_single", "poly", "decl", "cond", "meta_nested", "fanout", "tail_loop", "func_const",
+           "empty"]
 
 
 def build(spec):
@@ -709,13 +730,20 @@ def _value_matches(v, t, lenient):
         except ValueError:
             return False
     if t[0] == "func":
-        return v.get("v") == "Function"
+        # the DFG-rooted body HUGR as a dataflow region with its own links (export.rs:998-1011)
+        if v.get("v") != "Function" or len(t) != 2:
+            return False
+        try:
+            fs, _ = check_spec(v["hugr"], ["module", t[1]], lenient, root_dfg=True)
+        except Exception:  # noqa: BLE001
+            return False
+        return not fs
     # a constructor of an extension (e.g. arithmetic.int.const): only hugr-py's un-serialised value classes
     # export themselves this way; accepted for the export of the original builder HUGR.
     return lenient and t[0] == "apply" and v.get("v") == "Extension" and not t[1].startswith(("core.", "compat."))
 
 
-def check_spec(doc, mod, lenient=False):
+def check_spec(doc, mod, lenient=False, root_dfg=False):
     """All specification predicates; returns (failures, stats).  `mod` is a dumped module."""
     fails: list[Failure] = []
     seen = set()
@@ -871,6 +899,10 @@ def check_spec(doc, mod, lenient=False):
 
     def walk():
         reg = mod[1]
+        if root_dfg:
+            want(nodes[root]["op"] == "DFG", "Function.to_model", "function-body-not-a-dfg")
+            mirror_dfg(root, reg)
+            return
         site = "ModelExport.export_region_module"
         want(reg[1] == "MODULE" and not reg[2] and not reg[3], site, "region-kind")
         kids = [c for c in children[root] if nodes[c]["op"] != "Const"]
@@ -1119,7 +1151,8 @@ def oracle(spec):
             if f.key() not in keys:
                 keys.add(f.key())
                 out.append(dataclasses.replace(f, detail=f"[{name}] {f.detail}"))
-    if "package" in r and r["package"] != [r["loaded"], r["original"]]:
+    if ("package" in r and not isinstance(r["loaded"], dict) and not isinstance(r["original"], dict)
+            and r["package"] != [r["loaded"], r["original"]]):
         out.append(Failure("Package.to_model", "modules-not-exported-one-by-one-in-order", str(r["package"])[:200]))
     return out
 
@@ -1229,6 +1262,8 @@ def stats(spec, obs, counters):
     find_loads(o["module"][1])
     if loads and max(loads.count(c) for c in set(loads)) > 1:
         counters["same-constant-or-function-loaded-more-than-once"] += 1
+    if '["func", ["region"' in txt:
+        counters["function-valued-constant"] += 1
     for f in spec.get("feats", []):
         counters["feat:" + f] += 1
 
